@@ -390,6 +390,13 @@ def c18 (fn : String) (a : List String) : Option String := do
     let after ← decStrList? obs
     some (if Spec.C18.holdsPrep im (sortStrs fs) after then "holds" else "FAILS")
   | "c18.clean", [p] => some (encStr (Path.clean (← decStr? p)))
+  | "c04.rewrite", [p, rules] =>
+    let rs ← (if rules.isEmpty then some [] else (rules.splitOn ";").mapM fun kv =>
+      match kv.splitOn "=" with
+      | [k, v] => do pure ((← decStr? k), (← decStr? v))
+      | _ => none)
+    some ("same " ++ encStr (Path.rewriteSubdir (← decStr? p) rs))
+  | "o.c04.rewrite", [_, _, obs] => some (if obs.startsWith "same " then "holds" else "FAILS")
   | "c18.incr", [_] => some "same"       -- the model of a run is a function of the named books' inputs
   | "c18.incr", [_, _] => some "same"
   | "o.c18.incr", [_, obs] => some (if obs == "same" then "holds" else "FAILS")
@@ -417,7 +424,7 @@ def dispatch (line : String) : String :=
       else if fn.startsWith "c11." || fn.startsWith "o.c11." then c11 fn args
       else if fn.startsWith "doc." then doc fn args
       else if fn.startsWith "c17." || fn.startsWith "o.c17." || fn.startsWith "pg." || fn.startsWith "o.pg." || fn.startsWith "c10." || fn.startsWith "o.c10." || fn.startsWith "c09." || fn.startsWith "o.c09." || fn.startsWith "c19." || fn.startsWith "o.c19." || fn.startsWith "c02." || fn.startsWith "o.c02." || fn.startsWith "c15." || fn.startsWith "o.c15." || fn.startsWith "c08." || fn.startsWith "o.c08." then pg fn args
-      else if fn.startsWith "c18." || fn.startsWith "o.c18." then c18 fn args
+      else if fn.startsWith "c18." || fn.startsWith "o.c18." || fn.startsWith "c04.rewrite" || fn.startsWith "o.c04.rewrite" then c18 fn args
       else if fn.startsWith "c04." || fn.startsWith "o.c04." || fn.startsWith "c16." || fn.startsWith "o.c16." || fn.startsWith "c06." || fn.startsWith "o.c06." then c04 fn args
       else if fn.startsWith "tp." || fn.startsWith "o.tp." || fn.startsWith "c01." || fn.startsWith "o.c01." || fn.startsWith "w.c01." then tp fn args
       else none
